@@ -14,7 +14,7 @@ func init() {
 		jsonSinkRule("C03.escape", "an example (exampleBuilder)", func(pkgRel, fn string) bool {
 			return pkgRel == "notations/jschema" && strings.Contains(fn, "exampleBuilder")
 		}, 4),
-		c03literal, c03order, c03subset, c03unquote, trimQuoteRule("C03.trimquote"), keyEncoderRule("C03.keyencoder"), decodeOnceRule("C03.decodeonce"))
+		c03literal, c03order, c03subset, c03unquote, trimQuoteRule("C03.trimquote"), keyEncoderRule("C03.keyencoder"), decodeOnceRule("C03.decodeonce"), strClassRule("C03.strclass"), stackRule("C03.stack"), noLimitRule("C03.nolimit"))
 }
 
 func c03literal(c *core.Ctx) {
